@@ -41,6 +41,20 @@ theorem buildDict_NI (c : Ctx) (kt vt : Ty) : ∀ (ps acc : IPairs), NI (buildDi
       · trivial
       · exact buildDict_NI c kt vt r _
 
+theorem setChecked_NI (name : String) (v : IV) : ∀ (fs : IFields), NI (fs.setChecked name v)
+  | .nil => by simp [IFields.setChecked, NI]
+  | .cons n w r => by
+    simp only [IFields.setChecked]
+    split
+    · split <;> trivial
+    · exact NI_map _ _ (setChecked_NI name v r)
+
+theorem buildFields_NI : ∀ (fs acc : IFields), NI (buildFields acc fs)
+  | .nil, acc => by simp [buildFields, NI]
+  | .cons n v r, acc => by
+    simp only [buildFields]
+    exact NI_bind _ _ (setChecked_NI n v acc) fun _ => buildFields_NI r _
+
 mutual
 theorem importValue_NI (c : Ctx) : ∀ (x : XV) (e : Option Ty), NI (importValue c x e)
   | .void, _ => by simp [importValue, NI]
@@ -79,6 +93,8 @@ theorem importValue_NI (c : Ctx) : ∀ (x : XV) (e : Option Ty), NI (importValue
     · trivial
     · refine NI_bind _ _ (importFields_NI c fs _) ?_
       intro ifs
+      refine NI_bind _ _ (buildFields_NI ifs _) ?_
+      intro built
       split
       · split
         · trivial
